@@ -4,10 +4,11 @@ import os
 import subprocess
 import tempfile
 
+TIMEOUTS = []   # ids of cases whose model evaluation hit the time limit (reported in the evidence)
 LEAN_DIR = os.path.join(os.path.dirname(os.path.abspath(__file__)), "..", "lean")
 
 
-def run_driver(cases, nproc=None, timeout=3000, driver="Driver.lean"):
+def run_driver(cases, nproc=None, timeout=1200, driver="Driver.lean"):
     """cases: list of dicts with unique 'id'.  Splits across processes."""
     if not cases:
         return {}
@@ -20,18 +21,38 @@ def run_driver(cases, nproc=None, timeout=3000, driver="Driver.lean"):
             f.write(json.dumps(c) + "\n")
         f.seek(0)
         p = subprocess.Popen(["lake", "env", "lean", "--run", driver], cwd=LEAN_DIR, stdin=f,
-                             stdout=subprocess.PIPE, stderr=subprocess.PIPE, text=True)
+                             stdout=subprocess.PIPE, stderr=subprocess.PIPE, text=True, start_new_session=True)
         procs.append((p, f))
     out = {}
+    import time
+    deadline = time.time() + timeout
     for p, f in procs:
-        so, se = p.communicate(timeout=timeout)
+        timed_out = False
+        try:
+            so, se = p.communicate(timeout=max(1.0, deadline - time.time()))
+        except subprocess.TimeoutExpired:
+            # a case too expensive for the interpreted model: keep what the process printed so far, mark the
+            # rest of its chunk as driver-timeout (counted in the evidence, never a violation by itself)
+            try:
+                os.killpg(p.pid, 9)   # lake and the lean process it started
+            except ProcessLookupError:
+                pass
+            so, se = p.communicate()
+            timed_out = True
         f.close()
-        if p.returncode != 0:
+        if p.returncode not in (0, None) and not timed_out:
             raise RuntimeError(f"lean driver failed rc={p.returncode}: {se[-2000:]}")
         for line in so.splitlines():
             line = line.strip()
             if not line:
                 continue
-            a = json.loads(line)
+            try:
+                a = json.loads(line)
+            except ValueError:
+                continue   # line cut by the kill
             out[a.get("id")] = a
+    for c in cases:
+        if c.get("id") not in out:
+            out[c.get("id")] = {"id": c.get("id"), "error": "driver-timeout"}
+            TIMEOUTS.append(c.get("id"))
     return out
